@@ -446,7 +446,7 @@ class ConstEval:
         "frozenset": frozenset, "bytes": bytes, "chr": chr, "ord": ord, "min": min, "max": max, "abs": abs, "sorted": sorted,
         "pow": pow, "bool": bool, "zip": lambda *a: list(zip(*a)), "enumerate": lambda *a, **k: list(enumerate(*a, **k)),
         "reversed": lambda x: list(reversed(x)), "sum": sum, "any": any, "all": all, "divmod": divmod, "round": round, "repr": repr,
-        "hex": hex, "bin": bin, "format": format,
+        "hex": hex, "bin": bin, "format": format, "slice": slice,
     }
     PURE_METHODS = {"join", "format", "items", "keys", "values", "get", "upper", "lower", "encode", "decode", "zfill", "rjust", "ljust",
                     "replace", "split", "rsplit", "strip", "lstrip", "rstrip", "startswith", "endswith", "copy", "title", "capitalize",
